@@ -193,14 +193,14 @@ theorem kind_cases (k : Nat) : k = 13 ∨ k = 14 ∨ k = 15 ∨ k = 16 ∨ k = 1
   simp [toV, J_hasErr]
 
 theorem acceptQuery_spec (lower : Bytes → Bytes) (c : QueryCtx) : ∀ (j : J),
-    mapR (fun r => (r.1, toV r.2)) (acceptQuery lower c j) = mapR (fun r => (some r.1, r.2)) (visit lower (abs c) (toV j)) := by
+    mapR (fun r => (r.1, toV r.2)) (acceptQuery (modelOps lower) c j) = mapR (fun r => (some r.1, r.2)) (visit lower (abs c) (toV j)) := by
   induction c with
   | parenExp n q ih =>
     intro j
     have h1 := ih j
     revert h1
     simp only [acceptQuery, abs, visit]
-    generalize acceptQuery lower q j = x
+    generalize acceptQuery (modelOps lower) q j = x
     generalize visit lower (abs q) (toV j) = y
     rcases x with p | ⟨t1, j'⟩ <;> rcases y with p' | ⟨b, s'⟩ <;> simp [mapR]
     rintro rfl rfl
@@ -210,7 +210,7 @@ theorem acceptQuery_spec (lower : Bytes → Bytes) (c : QueryCtx) : ∀ (j : J),
     have h1 := ihl j
     revert h1
     simp only [acceptQuery, abs, visit]
-    generalize acceptQuery lower l j = x
+    generalize acceptQuery (modelOps lower) l j = x
     generalize visit lower (abs l) (toV j) = y
     rcases x with p | ⟨t1, j'⟩ <;> rcases y with p' | ⟨b, s'⟩ <;> simp [mapR]
     rintro rfl rfl
@@ -220,7 +220,7 @@ theorem acceptQuery_spec (lower : Bytes → Bytes) (c : QueryCtx) : ∀ (j : J),
     all_goals
       (have h2 := ihr j'
        revert h2
-       generalize acceptQuery lower r j' = x
+       generalize acceptQuery (modelOps lower) r j' = x
        generalize visit lower (abs r) (toV j') = y
        rcases x with p | ⟨t1, j''⟩ <;> rcases y with p' | ⟨b, s''⟩ <;> simp [mapR, assertBool]
        rintro rfl rfl; simp [assertBool])
@@ -253,21 +253,21 @@ theorem acceptQuery_spec (lower : Bytes → Bytes) (c : QueryCtx) : ∀ (j : J),
     rcases kind_cases op.kind with h | h | h | h | h | h | h | h | h | h | h
     all_goals
       (simp [h, cmpOfKind, methodVal, toV]
-       cases cur <;> simp [raise, mapR, callOp, J_setErr, clsErr]
+       cases cur <;> simp [raise, mapR, callOp, modelOps, J_setErr, clsErr]
        try (generalize Rules.apply lower _ _ l r = res
-            rcases res with ⟨b, c⟩ | ⟨e, c⟩ | c <;> simp [mapR]
+            rcases res with ⟨b, c⟩ | ⟨e, c⟩ | c <;> simp [mapR, embed]
             cases e <;> simp [J_setErr, J_setDebugErr, clsErr, clsDbg, newNestedError, GErr.Set]))
 
 theorem new_spec (item : List (Bytes × Value)) : toV (NewJsonQueryVisitorImpl item) = VState.init item := by
   simp [toV, NewJsonQueryVisitorImpl, VState.init]
 
 theorem visit_top_spec (lower : Bytes → Bytes) (c : QueryCtx) (j : J) (h : J_hasErr j = false) :
-    mapR (fun r => (r.1, toV r.2)) (J_Visit lower j c) = mapR (fun r => (some r.1, r.2)) (visit lower (abs c) (toV j)) := by
+    mapR (fun r => (r.1, toV r.2)) (J_Visit (modelOps lower) j c) = mapR (fun r => (some r.1, r.2)) (visit lower (abs c) (toV j)) := by
   have h1 := acceptQuery_spec lower c j
   revert h1
   unfold J_Visit
   simp only [h]
-  generalize acceptQuery lower c j = x
+  generalize acceptQuery (modelOps lower) c j = x
   generalize visit lower (abs c) (toV j) = y
   cases c <;> rcases x with p | ⟨t1, j'⟩ <;> rcases y with p' | ⟨b, s'⟩ <;> simp [mapR] <;> rintro rfl rfl <;> simp [assertBool]
 
@@ -276,7 +276,7 @@ theorem visit_top_spec (lower : Bytes → Bytes) (c : QueryCtx) (j : J) (h : J_h
 if result == nil || visitor.err != nil { return false, visitor.err }; return result.(bool), visitor.err`, with the
 deferred `recover()` (this function itself is transcribed by hand: `Process` is not in the translated file) -/
 def genProcess (lower : Bytes → Bytes) (c : QueryCtx) (item : List (Bytes × Value)) : ProcOut :=
-  match J_Visit lower (NewJsonQueryVisitorImpl item) c with
+  match J_Visit (modelOps lower) (NewJsonQueryVisitorImpl item) c with
   | .error p => { verdict := false, err := some (.panic p.p), debug := p.debug, calls := p.calls }
   | .ok (result, visitor) =>
     match result, visitor.err with
@@ -291,7 +291,7 @@ theorem genProcess_eq (lower : Bytes → Bytes) (c : QueryCtx) (item : List (Byt
   rw [new_spec] at h1
   revert h1
   unfold genProcess processTree
-  generalize J_Visit lower (NewJsonQueryVisitorImpl item) c = x
+  generalize J_Visit (modelOps lower) (NewJsonQueryVisitorImpl item) c = x
   generalize visit lower (abs c) (VState.init item) = y
   rcases x with p | ⟨t1, j'⟩ <;> rcases y with p' | ⟨b, s'⟩ <;> simp [mapR]
   · rintro rfl; exact ⟨rfl, rfl, rfl⟩
